@@ -481,6 +481,11 @@ def fam_path_noslash(seed):
             if have_local:
                 sc["expexe"] = hx(os.path.join(cwd, "tool2"))
             out.append(sc)
+        # a PATH of nothing but empty entries names no directory at all: the program in the working directory must not run
+        if have_local:
+            for pv in (":", "::", ":::::"):
+                out.append({"id": "ns%d-onlyempty%d" % (i, len(pv)), "class": "path-only-empty-local", "argv": [hx("tool2"), hx("x")],
+                            "cwd": hx(cwd), "path": hx(pv), "expect_start": False})
         # relative PATH entries are relative to the CHILD's working directory (the lookup happens after chdir)
         if have_local:
             for pv, exp in (("sub", os.path.join(cwd, "sub", "tool")), ("nowhere:sub", os.path.join(cwd, "sub", "tool")),
